@@ -112,3 +112,21 @@ def bound_args(prog: Program, ev) -> dict:
             if i < len(sig):
                 out.setdefault(sig[i], a)
     return out
+
+
+def comp_parts(t):
+    """(element expression, loop element, iterable, conditions) of a single-generator comprehension term of any kind
+    (list / generator / set; map, filter and starmap are recorded in this form too), else None."""
+    if isinstance(t, tuple) and len(t) == 4 and t[0] == "comp" and len(t[3]) == 1:
+        elem, it, conds = t[3][0]
+        return t[2], elem, it, conds
+    return None
+
+
+def distinct(terms) -> list:
+    """Order-preserving de-duplication (the element of a comprehension carries its iterable, so sub-term searches see it repeatedly)."""
+    out = []
+    for t in terms:
+        if t not in out:
+            out.append(t)
+    return out
